@@ -16,8 +16,8 @@ Example cvarint_nonvacuous :
   cv_encode 270549121 = [240; 0; 0; 0; 1] /\ cv_decode (cv_encode 270549121 ++ [7]) = Ok (270549121, [7]) /\
   cv_encode 4294967295 = [240; 239; 223; 191; 127].
 Proof. vm_compute. repeat split. Qed.
-(* outside the encoder's image the 5-byte form overflows u32: a panic in the dev profile *)
-Example cvarint_decode_overflow : cv_decode [240; 255; 255; 255; 255] = Panic.
+(* outside the encoder's image the 5-byte payload + THR_4 leaves u32: rejected with an error (checked_add) *)
+Example cvarint_decode_overflow : cv_decode [240; 255; 255; 255; 255] = Err.
 Proof. vm_compute. reflexivity. Qed.
 
 (* ---- zigzag with prediction: exact domain of the u64 arithmetic is x, p < 2^63 *)
